@@ -28,6 +28,7 @@ theorems carry the non-zero hypotheses), float rounding.
 from __future__ import annotations
 
 import ast
+import re
 import textwrap
 from dataclasses import dataclass, field
 from fractions import Fraction
@@ -550,12 +551,12 @@ class Tr:
         sig, env = self.signature()
         assigns = []
         for node in ast.walk(fn):
-            if isinstance(node, ast.Assign) and len(node.targets) == 1 and isinstance(node.targets[0], ast.Name) \
-                    and node.targets[0].id == self.f.target:
+            if isinstance(node, ast.Assign) and len(node.targets) == 1 and ast.unparse(node.targets[0]) == self.f.target:
+                assigns.append(node)          # `x = …` or an attribute target such as `self._center = …`
+            elif isinstance(node, ast.AnnAssign) and ast.unparse(node.target) == self.f.target and node.value is not None:
                 assigns.append(node)
-            elif isinstance(node, ast.AnnAssign) and isinstance(node.target, ast.Name) and node.target.id == self.f.target \
-                    and node.value is not None:
-                assigns.append(node)
+            elif isinstance(node, ast.Return) and self.f.target == "return" and node.value is not None:
+                assigns.append(node)          # target "return": the returned expressions, in source order
         assigns.sort(key=lambda a: (a.lineno, a.col_offset))
         if self.f.arg_of is not None:
             assigns = [a for a in assigns if isinstance(a.value, ast.Call) and ast.unparse(a.value.func) == self.f.arg_of
@@ -568,7 +569,8 @@ class Tr:
         for a in assigns[lo: hi + 1]:
             value = a.value
             if self.f.arg_of is not None:
-                if not (isinstance(value, ast.Call) and ast.unparse(value.func) == self.f.arg_of and value.args):
+                if not (isinstance(value, ast.Call) and ast.unparse(value.func) == self.f.arg_of
+                        and (value.args if self.f.kwarg is None else True)):
                     raise Unsupported(f"'{self.f.target}' is not assigned a call of {self.f.arg_of}")
                 value = value.args[0] if self.f.kwarg is None else [k.value for k in value.keywords if k.arg == self.f.kwarg][0]
             if self.f.elt is not None:
@@ -582,7 +584,7 @@ class Tr:
                 if isinstance(value, (ast.List, ast.Tuple)):
                     value = value.elts[self.f.elt]
             t, kind = self.expr(value, env)
-            nm = self.fresh(self.f.target)
+            nm = self.fresh(re.sub(r"\W", "_", self.f.target))
             ty = {"real": "α", "int": "Int", "bool": "Bool"}[kind]
             lines.append(f"let {nm} : {ty} := " + (f"decide {t}" if kind == "bool" else t))
             env = dict(env)
